@@ -471,7 +471,7 @@ pub fn generate(check: &str, tier: &str, seed: u64) -> Scenario {
                 check: check.to_string(),
                 seed,
                 sim,
-                body: Body::Store(StoreScn { cfg, keys, threads: vec![ops], fault: None, fault_reads: thorough && cr.one_in(2), max_crash_points: if thorough { 0 } else { 40 }, extra: 0 }),
+                body: Body::Store(StoreScn { cfg, keys, threads: vec![ops], fault: None, fault_reads: if thorough { cr.one_in(2) } else { cr.one_in(3) }, max_crash_points: if thorough { 0 } else { 40 }, extra: 0 }),
             }
         }
         "C04" => {
